@@ -2,6 +2,8 @@
 
 impl   : annet.annlib.jsontools.{apply_json_fragment, make_patch, apply_patch, apply_acl_filters,
          _resolve_json_pointers}, annet.generators.result.RunGeneratorResult.new_json_fragment_files
+         (one call, and the full / --acl-safe views computed in turn on ONE object as gen.py does),
+         annet.api.PCDeployerJob.parse_result and annet.api._patch_worker (what `annet deploy` / `annet patch` upload)
          (+ the library pieces the model contains: jsonpointer.JsonPointer, fnmatch.fnmatchcase)
 model  : Annet.Json.* (lean/AnnetModel/Model/Json.lean) through Glue/C13.lean
 oracle : the laws of the property evaluated on the real result only, with an independent pointer/glob
@@ -13,6 +15,12 @@ oracle : the laws of the property evaluated on the real result only, with an ind
            idempotent apply(r, f, acl) == r
            patch      loads(apply_patch(dumps(old), format_json(make_patch(old, new)))) == new  (JSON equality)
            filter     apply_acl_filters(d, F) is a sub-document of d
+           views      (glue, result.py:83-120) every merge of the fold over the generators of a file keeps inside /
+                      outside (observed on fresh objects for every prefix of the chain); a view is that fold; the
+                      k-th computation on one RunGeneratorResult equals the view a fresh one gives, computing twice
+                      gives the same; fragments, pointer lists and old files are only read
+           callers    (glue, api/__init__.py:269-278, 451-457) for every file, missing on the device (None) or not:
+                      loads(apply_patch(dumps(old) or None, uploaded patch)) == new; nothing uploaded only if old == new
 Documents travel in cases as tagged values (objects as ordered pair lists), so a replay is exact.
 """
 import copy
@@ -27,6 +35,12 @@ RULE = ("documents old/new/f are drawn from one random schema (objects with keys
         "*suffix, ?, [set], [!set], ranges, array indices, too-deep and non-matching patterns); kinds: fragment "
         "(plus second application), chain of 2-3 generators through RunGeneratorResult.new_json_fragment_files, "
         "patch round trip (plus perturbed op lists for the RFC 6902 model), filters, pointer resolution, "
+        "views (2-3 generators over 1-2 files, missing files included, whose acl / acl_safe lists are cuts of one schema "
+        "path so that later generators select inside or around what earlier ones install; one RunGeneratorResult computes "
+        "a sequence of full/safe views: FT FTF FTFT TF FF TTF TFT; every prefix of every chain is also computed on fresh "
+        "objects), callers (1-3 files per device, 35% missing on the device, new / acl-safe documents re-drawn, slightly "
+        "edited, equal or empty; --acl-safe and --entire-reload no/yes/force; PCDeployerJob.parse_result and _patch_worker "
+        "run on the same OldNewResult and every uploaded patch is applied with apply_patch), "
         "fnmatch and JSON-pointer syntax streams; a smaller malformed stream breaks the schema (model tie only); "
         "plus the exhaustive universe of 49 x 49 two-key documents x 9 acl lists (fragment), 49 x 9 (filters), "
         "49 x 49 (patch), and every glob of length <= 5 over the alphabet []!-a (thorough: []!-ab^*\\) against 12 names. "
@@ -44,7 +58,8 @@ ASSUMPTIONS = [
     "hypotheses of the *_partial theorems: SpineObj ps old (what the device document has above a selectable pointer is an object) and SpineNoArr ps f / SpineNoArr ps d (the fragment / the filtered document has no array there: objects and scalars, strings included since 33969c0); the share of generated cases inside them is reported as frag.theorem-hypotheses-hold / filter.theorem-hypotheses-hold, and a law broken inside them gets the signature *.inside-theorem-domain.*",
     "C13_resolve_sound_complete has no hypothesis besides unique keys and a non-root pattern: the resolve stream checks it on every generated (document, pattern), malformed documents included",
     "documents are JSON values without floats; dict keys are unique (J.WF)",
-    "aliasing of fragment sub-objects inside the result (no deepcopy in apply_json_fragment) is not modelled; inputs are copied per call",
+    "aliasing of fragment sub-objects inside the result (no deepcopy in apply_json_fragment) is not modelled; inputs are copied per call -- its observable consequence (a later merge or a later view changing a generator's fragment, a view depending on what was computed before) is checked on the real objects by the views kind, where the model (a function of values) says `nothing is mutated, every view is the fold`",
+    "callers kind: the deploy driver is a stub without commands, the device is HardwareView('PC', ''), the file differ is UnifiedFileDiffer, res_diff_patch is replaced by the generated OldNewResult; which files are uploaded and with which operations is the code's choice (the model applies those operations)",
 ]
 EXHAUSTIVE = {"quick": False, "thorough": False}
 
@@ -279,6 +294,90 @@ def gen_pointer_case(rng):
     return dict(k="pointer", s=s)
 
 
+# ------------------------------------------------------------------ glue kinds (views, callers): generators
+def gen_parts_full(rng, sch):
+    """glob parts along one schema path, from the root down to a leaf"""
+    parts, node = [], sch
+    while node[0] != "s":
+        if node[0] == "o":
+            k, sub = rng.choice(node[1])
+            parts.append(glob_of(rng, k))
+            node = sub
+        else:
+            parts.append(rng.choice(["*", "*", "*", "0", "1", "[01]", "?"]))
+            node = node[1]
+    return parts
+
+
+def _cut(rng, parts):
+    return "/" + "/".join(parts[:rng.randint(1, len(parts))])
+
+
+# the computations one RunGeneratorResult is asked for, in order: F = full view, T = safe view (gen.py:264, 284)
+VIEW_SEQS = ["FT", "FT", "FT", "FTF", "FTFT", "TF", "FF", "TTF", "TFT"]
+
+
+def gen_views_case(rng):
+    """2-3 generators over one file (sometimes two files) whose pointer patterns are cuts of ONE schema path, so that
+    a later generator often selects inside (or around) what an earlier one installed; acl_safe is the acl, a part of
+    it, nothing, or another cut of the same path"""
+    sch = gen_root(rng)
+    nfiles = 2 if rng.random() < 0.25 else 1
+    files = [None if rng.random() < 0.15 else gen_doc(rng, sch) for _ in range(nfiles)]
+    shared = gen_parts_full(rng, sch)
+    strings_only = rng.random() < 0.7
+    gens = []
+    for _ in range(rng.randint(2, 3)):
+        base = shared if rng.random() < 0.75 else gen_parts_full(rng, sch)
+        if rng.random() < 0.2:
+            base = list(base)
+            base[rng.randrange(len(base))] = "*"
+        acl = [_cut(rng, base) for _ in range(rng.choice([1, 1, 2]))]
+        r = rng.random()
+        if r < 0.35:
+            safe = list(acl)
+        elif r < 0.6:
+            safe = []
+        elif r < 0.8:
+            safe = acl[:1]
+        else:
+            safe = [_cut(rng, base)]
+        f = gen_doc(rng, sch, p_key=0.7, strings_only=strings_only)
+        gens.append(dict(file=rng.randrange(nfiles), f=enc(f), acl=acl, safe=safe))
+    return dict(k="views", files=[enc(x) for x in files], gens=gens, seq=rng.choice(VIEW_SEQS))
+
+
+def _variant(rng, sch, old):
+    r = rng.random()
+    if r < 0.10:
+        return {}
+    if r < 0.22:
+        return copy.deepcopy(old) if old is not None else {}
+    if r < 0.60 or not old:
+        return gen_doc(rng, sch)
+    new = copy.deepcopy(old)         # small edit distance: re-draw a few subtrees
+    for _ in range(rng.randint(1, 3)):
+        other = gen_doc(rng, sch)
+        for k in rng.sample(list(other), min(len(other), 1)):
+            if rng.random() < 0.3 and k in new:
+                del new[k]
+            else:
+                new[k] = other[k]
+    return new
+
+
+def gen_callers_case(rng):
+    """1-3 JSON_FRAGMENT files of one device as annet.gen leaves them in an OldNewResult: the old document (None = the
+    file is not on the device, gen.py:360), the new one and the --acl-safe one; flags of the deploy / patch commands"""
+    sch = gen_root(rng)
+    files = []
+    for _ in range(rng.randint(1, 3)):
+        r = rng.random()
+        old = None if r < 0.35 else ({} if r < 0.42 else gen_doc(rng, sch))
+        files.append(dict(old=enc(old), new=enc(_variant(rng, sch, old)), safe=enc(_variant(rng, sch, old))))
+    return dict(k="callers", files=files, acl_safe=rng.random() < 0.35, reload=rng.choice(["yes", "yes", "no", "force"]))
+
+
 # exhaustive small universe: every (old, fragment) pair over these values under every listed acl
 EXH_VALUES = ["x", "y", {}, {"k": "x"}, {"k": "y", "l": "x"}, ["x"]]
 EXH_ACLS = [["/a"], ["/*"], ["/a/k"], ["/a/*"], ["/a", "/a/k"], ["/*/k"], ["/b", "/a/*"], ["/a/k", "/*"], ["/?/[k-l]"]]
@@ -292,7 +391,8 @@ def _exh_docs():
     return docs
 
 
-STREAMS = ["frag", "fragbad", "chain", "patch", "patchp", "filter", "filterbad", "resolve", "fnmatch", "pointer"]
+STREAMS = ["frag", "fragbad", "chain", "patch", "patchp", "filter", "filterbad", "resolve", "fnmatch", "pointer",
+           "views", "callers"]
 
 
 def shards(tier, seed):
@@ -301,11 +401,11 @@ def shards(tier, seed):
     if tier == "quick":
         n = 32
         sizes = dict(frag=2000, fragbad=300, chain=300, patch=1000, patchp=300, filter=900, filterbad=100, resolve=500,
-                     fnmatch=2000, pointer=600)
+                     fnmatch=2000, pointer=600, views=250, callers=400)
     else:
         n = 160
         sizes = dict(frag=6000, fragbad=900, chain=900, patch=3000, patchp=900, filter=2700, filterbad=300, resolve=1500,
-                     fnmatch=6000, pointer=1800)
+                     fnmatch=6000, pointer=1800, views=500, callers=800)
     # one shard = one stream, so that a burst of violations in one kind cannot crowd out the others
     for i in range(n):
         for j, stream in enumerate(STREAMS):
@@ -365,6 +465,10 @@ def gen(desc):
             yield gen_fnmatch_case(rng)
         elif stream == "pointer":
             yield gen_pointer_case(rng)
+        elif stream == "views":
+            yield gen_views_case(rng)
+        elif stream == "callers":
+            yield gen_callers_case(rng)
 
 
 # ------------------------------------------------------------------ real code
@@ -447,6 +551,228 @@ class InputMutated(Exception):
     """new_json_fragment_files changed the old file it was given (the callers build the patch from it afterwards)"""
 
 
+# ------------------------------------------------------------------ glue kinds: the real code
+def _view_flags(case):
+    return [c for c in "FT" if c in case["seq"]]
+
+
+def _flagname(c):
+    return "safe" if c == "T" else "full"
+
+
+def _view_paths(case):
+    return ["/etc/f%d.json" % j for j in range(len(case["files"]))]
+
+
+def _gens_of_file(case, j):
+    return [i for i, g in enumerate(case["gens"]) if g["file"] == j]
+
+
+def _real_views(case):
+    """One RunGeneratorResult asked for the views of case['seq'] in turn (what gen.py does with --acl-safe), the
+    state of its inputs after every computation, and the same views on FRESH objects: whole (`fresh`) and for every
+    prefix of the generators of one file (`steps`), so that each merge of the fold is observable"""
+    from annet.generators.result import RunGeneratorResult
+    from annet.types import GeneratorJSONFragmentResult
+    paths = _view_paths(case)
+
+    def build(idx):
+        res, frs = RunGeneratorResult(), []
+        for i in idx:
+            g = case["gens"][i]
+            fr = GeneratorJSONFragmentResult(
+                name="g%d" % i, tags=[], path=paths[g["file"]], acl=list(g["acl"]), acl_safe=list(g["safe"]),
+                config=dec(g["f"]), reload="r%d" % i, perf=None, reload_prio=100)
+            res.add_json_fragment(fr)
+            frs.append((i, fr))
+        return res, frs, {p: dec(case["files"][j]) for j, p in enumerate(paths)}
+
+    def compute(res, old_files, flag):
+        try:
+            out = res.new_json_fragment_files(old_files, safe=(flag == "T"))
+        except Exception as e:
+            return {"err": type(e).__name__}
+        return {"ok": [enc(out[p][0]) if p in out else None for p in paths]}
+
+    def changed(res, frs, old_files):
+        m = []
+        for i, fr in frs:
+            g = case["gens"][i]
+            if not strict_eq(fr.config, dec(g["f"])) or res.json_fragment_results.get(fr.name) is not fr:
+                m.append("fragment:g%d" % i)
+            if list(fr.acl) != list(g["acl"]) or list(fr.acl_safe) != list(g["safe"]):
+                m.append("acl:g%d" % i)
+        for j, p in enumerate(paths):
+            if p not in old_files or not strict_eq(old_files[p], dec(case["files"][j])):
+                m.append("old:%d" % j)
+        return m
+
+    res, frs, old_files = build(range(len(case["gens"])))
+    views, mutated = [], []
+    for flag in case["seq"]:
+        views.append(compute(res, old_files, flag))
+        mutated.append(changed(res, frs, old_files))
+    fresh, steps = {}, {}
+    for flag in _view_flags(case):
+        r2, _, o2 = build(range(len(case["gens"])))
+        fresh[_flagname(flag)] = compute(r2, o2, flag)
+        per_file = []
+        for j in range(len(paths)):
+            idx, reps = _gens_of_file(case, j), []
+            for n in range(1, len(idx) + 1):
+                r3, _, o3 = build(idx[:n])
+                rep = compute(r3, o3, flag)
+                reps.append(rep if "err" in rep else {"ok": rep["ok"][j]})
+            per_file.append(reps)
+        steps[_flagname(flag)] = per_file
+    return dict(views=views, mutated=mutated, fresh=fresh, steps=steps)
+
+
+def _combine_steps(case, per_file):
+    """the view that the per-file folds amount to: the documents after the last generator of every file, or the
+    error of the generator that fails first in generator order"""
+    errs = []
+    for j, reps in enumerate(per_file):
+        idx = _gens_of_file(case, j)
+        for n, rep in enumerate(reps):
+            if "err" in rep:
+                errs.append((idx[n], rep["err"]))
+                break
+    if errs:
+        return {"err": min(errs)[1]}
+    return {"ok": [reps[-1]["ok"] if reps else None for reps in per_file]}
+
+
+class _CallersEnv:
+    pass
+
+
+_CALLERS_ENV = None
+
+
+def _callers_env():
+    """connectors as annet/annet.py:main() sets them, a PC device and a deploy driver without commands"""
+    global _CALLERS_ENV
+    if _CALLERS_ENV is None:
+        import annet.api as api
+        import annet.deploy
+        import annet.diff
+        import annet.hardware
+        import annet.rulebook
+        from annet.annlib import jsontools
+        from annet.annlib.command import CommandList
+        from annet.annlib.netdev.views.hardware import HardwareView
+        for conn, cls in ((annet.rulebook.rulebook_provider_connector, annet.rulebook.DefaultRulebookProvider),
+                          (annet.hardware.hardware_connector, annet.hardware.AnnetHardwareProvider),
+                          (annet.diff.file_differ_connector, annet.diff.UnifiedFileDiffer)):
+            if conn._classes is None:
+                conn.set(cls)
+
+        class StubDeployer:
+            def build_configuration_cmdlist(self, hw, do_finalize=True, do_commit=True, path=None):
+                return CommandList(), CommandList()
+
+            def build_exit_cmdlist(self, hw):
+                return CommandList()
+
+            def apply_deploy_rulebook(self, hw, cmd_paths, do_finalize=True, do_commit=True):
+                return CommandList()
+
+        class Device:
+            hostname = "sw1"
+            fqdn = "sw1.example.net"
+            id = 1
+            hw = HardwareView("PC", "")
+
+        env = _CallersEnv()
+        env.api, env.deploy, env.jsontools = api, annet.deploy, jsontools
+        env.deployer, env.device = StubDeployer(), Device()
+        _CALLERS_ENV = env
+    return _CALLERS_ENV
+
+
+_CALLERS_SEEN = {}
+
+
+def _real_callers(case):
+    """_run_callers(case), remembered per case OBJECT: impl, requests and model of one evaluation pass look at the
+    same run (the function is deterministic in the case, so this only saves time; none of the three changes it)"""
+    hit = _CALLERS_SEEN.get(id(case))
+    if hit is not None and hit[0] is case:
+        return hit[1]
+    out = _run_callers(case)
+    if len(_CALLERS_SEEN) > 12000:
+        _CALLERS_SEEN.clear()
+    _CALLERS_SEEN[id(case)] = (case, out)
+    return out
+
+
+def _run_callers(case):
+    """`annet deploy` (PCDeployerJob.parse_result) and `annet patch` (_patch_worker) on one OldNewResult; what they
+    would upload for every file is applied with jsontools.apply_patch to what the device has (None = no file)"""
+    import os
+    import types
+    from annet.types import OldNewResult
+    env = _callers_env()
+    api, jsontools = env.api, env.jsontools
+    paths = ["/etc/f%d.json" % i for i in range(len(case["files"]))]
+    olds = [dec(f["old"]) for f in case["files"]]
+    res = OldNewResult(
+        device=env.device,
+        old_json_fragment_files={p: copy.deepcopy(o) for p, o in zip(paths, olds)},
+        new_json_fragment_files={p: (dec(f["new"]), "reload %d" % i) for i, (p, f) in enumerate(zip(paths, case["files"]))},
+        safe_new_json_fragment_files={p: (dec(f["safe"]), "reload %d" % i) for i, (p, f) in enumerate(zip(paths, case["files"]))})
+
+    def observe(uploads):
+        rows = []
+        for p, o in zip(paths, olds):
+            if p not in uploads:
+                rows.append({"up": False})
+                continue
+            raw = uploads[p]
+            try:
+                ops = json.loads(raw)
+                if not isinstance(ops, list) or not all(isinstance(x, dict) and "op" in x and "path" in x for x in ops):
+                    raise ValueError
+            except Exception:
+                rows.append({"up": True, "ops": {"bad": raw.decode(errors="replace")[:200]}, "r": None})
+                continue
+            content = None if o is None else json.dumps(o).encode()
+            rows.append({"up": True, "ops": [_enc_op(x) for x in ops],
+                         "r": _call(lambda: json.loads(jsontools.apply_patch(content, raw)))})
+        return rows
+
+    out = {}
+    saved = env.deploy.get_deployer
+    env.deploy.get_deployer = lambda: env.deployer
+    try:
+        args = types.SimpleNamespace(acl_safe=case["acl_safe"], entire_reload=api.cli_args.EntireReloadFlag(case["reload"]))
+        job = api.PCDeployerJob(env.device, args)
+        try:
+            job.parse_result(res)
+            out["deploy"] = {"files": observe(job.deploy_cmds[env.device]["files"] if env.device in job.deploy_cmds else {})}
+        except Exception as e:
+            out["deploy"] = {"err": type(e).__name__}
+    finally:
+        env.deploy.get_deployer = saved
+    saved = api.res_diff_patch
+    api.res_diff_patch = lambda *a, **kw: iter([(res, None, None)])
+    try:
+        pargs = types.SimpleNamespace(acl_safe=case["acl_safe"], indent="  ")
+        try:
+            ups, prefix = {}, env.device.hostname + os.sep
+            for label, text, _ in api._patch_worker(env.device.id, pargs, None, None, None):
+                ups[label[len(prefix):]] = text.encode()
+            out["patch"] = {"files": observe(ups)}
+        except Exception as e:
+            out["patch"] = {"err": type(e).__name__}
+    finally:
+        api.res_diff_patch = saved
+    out["mutated"] = [i for i, (p, o) in enumerate(zip(paths, olds))
+                      if p not in res.old_json_fragment_files or not strict_eq(res.old_json_fragment_files[p], o)]
+    return out
+
+
 def impl(case):
     from annet.annlib import jsontools
     k = case["k"]
@@ -464,6 +790,10 @@ def impl(case):
         return dict(r=r, again=again, mutated=mutated)
     if k == "chain":
         return dict(r=_real_chain(dec(case["old"]), [(dec(g["f"]), g["acl"]) for g in case["gens"]]))
+    if k == "views":
+        return _real_views(case)
+    if k == "callers":
+        return _real_callers(case)
     if k == "patch":
         try:
             ops = _patch_ops(case)
@@ -503,6 +833,26 @@ def requests(case):
     if k == "chain":
         old = case["old"] if case["old"] is not None else {"o": []}
         return [dict(op="c13.chain", old=old, gens=case["gens"])]
+    if k == "views":
+        # every merge of every fold: the model's chain over each prefix of the generators of one file, per view
+        out = []
+        for flag in _view_flags(case):
+            for j in range(len(case["files"])):
+                old = case["files"][j] if case["files"][j] is not None else {"o": []}
+                idx = _gens_of_file(case, j)
+                for n in range(1, len(idx) + 1):
+                    out.append(dict(op="c13.chain", old=old, gens=[
+                        dict(f=case["gens"][i]["f"], acl=case["gens"][i]["safe" if flag == "T" else "acl"]) for i in idx[:n]]))
+        return out
+    if k == "callers":
+        # RFC 6902 application (model) of the operations the real callers upload, to what the device has
+        real = _real_callers(case)
+        out = []
+        for who in ("deploy", "patch"):
+            for f, row in zip(case["files"], real[who].get("files", [])):
+                if row["up"] and isinstance(row["ops"], list):
+                    out.append(dict(op="c13.patch", doc=f["old"], ops=row["ops"]))
+        return out
     if k == "patch":
         try:
             ops = _patch_ops(case)
@@ -522,6 +872,30 @@ def requests(case):
 
 def model(case, resp):
     k = case["k"]
+    if k == "views":
+        it = iter(resp)
+        steps = {}
+        for flag in _view_flags(case):
+            steps[_flagname(flag)] = [[next(it) for _ in _gens_of_file(case, j)] for j in range(len(case["files"]))]
+        whole = {name: _combine_steps(case, per_file) for name, per_file in steps.items()}
+        # the model is a function of values: a view does not depend on what was computed before, nothing is mutated
+        return dict(views=[whole[_flagname(c)] for c in case["seq"]], mutated=[[] for _ in case["seq"]],
+                    fresh=whole, steps=steps)
+    if k == "callers":
+        real = _real_callers(case)       # which files are uploaded, with which operations: the code's choice
+        it = iter(resp)
+        out = dict(mutated=[])
+        for who in ("deploy", "patch"):
+            if "files" not in real[who]:
+                out[who] = real[who]
+                continue
+            rows = []
+            for row in real[who]["files"]:
+                if row["up"] and isinstance(row["ops"], list):
+                    row = dict(row, r=next(it))
+                rows.append(row)
+            out[who] = {"files": rows}
+        return out
     r = resp[0]
     if k == "frag":
         return dict(r=r["r"], again=r.get("again"), mutated=[])      # the model is a function: its arguments are values
@@ -982,25 +1356,34 @@ def oracle_patch(case, res):
         if strict_eq(out, new):
             return []
         sym = "bool-int-alias" if out == new else "differs"
-    lib, lib_ops = _lib_roundtrip(old, new)
-    if lib is not None and lib == sym:
-        # the third-party library alone already breaks the round trip in the same way
-        ops = lib_ops or []
-        if sym == "bool-int-alias":
-            return [dict(sig="patch.jsonpatch-lib.bool-int-alias",
-                         what="jsonpatch compares list items with ==, so true/1 (false/0) are 'unchanged' and the patch omits them")]
-        if sym.startswith("make-raises"):
-            return [dict(sig="patch.jsonpatch-lib.make-raises",
-                         what="jsonpatch.make_patch itself raises %s on these documents (its undo bookkeeping compares "
-                              "object keys with array indices)" % sym[12:])]
-        if sym == "apply-raises-InvalidJsonPatch" and any(o["op"] == "replace" and o["path"].endswith("/-") for o in ops):
-            return [dict(sig="patch.jsonpatch-lib.replace-dash-key",
-                         what="jsonpatch refuses its own 'replace' of the object key '-'")]
-        return [dict(sig="patch.jsonpatch-lib.wrong-patch",
-                     what="jsonpatch.make_patch returns operations that do not reproduce the target when jsonpatch "
-                          "applies them (%s; %d ops, %d moves)" % (sym, len(ops), sum(o["op"] == "move" for o in ops)))]
+    known = _lib_finding(old, new, sym)
+    if known is not None:
+        return known
+    lib = _lib_roundtrip(old, new)[0]
     return [dict(sig="patch.roundtrip-" + sym,
                  what="apply_patch(old, make_patch(old, new)) != new (%s) although jsonpatch's own round trip gives %s" % (sym, lib or "new"))]
+
+
+def _lib_finding(old, new, sym):
+    """the recorded jsonpatch defects: the third-party library alone (make_patch -> apply, no annet in between)
+    already breaks the round trip old -> new in the same way; None when it does not"""
+    lib, lib_ops = _lib_roundtrip(old, new)
+    if lib is None or lib != sym:
+        return None
+    ops = lib_ops or []
+    if sym == "bool-int-alias":
+        return [dict(sig="patch.jsonpatch-lib.bool-int-alias",
+                     what="jsonpatch compares list items with ==, so true/1 (false/0) are 'unchanged' and the patch omits them")]
+    if sym.startswith("make-raises"):
+        return [dict(sig="patch.jsonpatch-lib.make-raises",
+                     what="jsonpatch.make_patch itself raises %s on these documents (its undo bookkeeping compares "
+                          "object keys with array indices)" % sym[12:])]
+    if sym == "apply-raises-InvalidJsonPatch" and any(o["op"] == "replace" and o["path"].endswith("/-") for o in ops):
+        return [dict(sig="patch.jsonpatch-lib.replace-dash-key",
+                     what="jsonpatch refuses its own 'replace' of the object key '-'")]
+    return [dict(sig="patch.jsonpatch-lib.wrong-patch",
+                 what="jsonpatch.make_patch returns operations that do not reproduce the target when jsonpatch "
+                      "applies them (%s; %d ops, %d moves)" % (sym, len(ops), sum(o["op"] == "move" for o in ops)))]
 
 
 def chain_findings(old, gens, reply):
@@ -1070,8 +1453,189 @@ def oracle_chain(old, gens, reply):
     return res_
 
 
+# ------------------------------------------------------------------ oracle of the glue kinds
+GLUE_LABEL = "new_json_fragment_files, "
+
+
+def _first_diff(a, b, q=()):
+    """pointer of the first place where two JSON values differ"""
+    if type(a) is type(b) and isinstance(a, dict):
+        for k in list(a) + [k for k in b if k not in a]:
+            if k not in a or k not in b:
+                return "/" + "/".join(q + (k,))
+            d = _first_diff(a[k], b[k], q + (k,))
+            if d is not None:
+                return d
+        return None
+    if type(a) is type(b) and isinstance(a, list):
+        for i in range(max(len(a), len(b))):
+            if i >= len(a) or i >= len(b):
+                return "/" + "/".join(q + (str(i),))
+            d = _first_diff(a[i], b[i], q + (str(i),))
+            if d is not None:
+                return d
+        return None
+    return None if strict_eq(a, b) else "/" + "/".join(q)
+
+
+def _view_docs(reply):
+    return [None if x is None else dec(x) for x in reply["ok"]]
+
+
+def _reply_eq(a, b):
+    if "err" in a or "err" in b:
+        return a.get("err") == b.get("err")
+    return strict_eq(_view_docs(a), _view_docs(b))
+
+
+def _reply_diff(a, b):
+    if "err" in a or "err" in b:
+        return "%s instead of %s" % (a.get("err", "a document"), b.get("err", "a document"))
+    for j, (x, y) in enumerate(zip(_view_docs(a), _view_docs(b))):
+        d = _first_diff(x, y)
+        if d is not None:
+            return "file %d differs at %s" % (j, d)
+    return "?"
+
+
+def _step_findings(prev, f, acl, reply, label):
+    """the laws of one merge (inside / outside the pointers) between two consecutive documents of the fold.  A broken
+    law that the merge ALONE (apply_json_fragment on copies of the same three arguments) breaks with the same
+    signature is the merge's defect and keeps the signature of the fragment stream; otherwise it is the glue's"""
+    found = oracle_frag(prev, f, acl, reply, None, label)
+    if not found:
+        return []
+    alone = {v["sig"] for v in oracle_frag(prev, f, acl, _real_fragment(prev, f, acl)[0], None)}
+    return [v if v["sig"] in alone else
+            dict(sig="glue.chain.step-law." + v["sig"].split(".", 1)[1], what=v["what"] + " (apply_json_fragment alone keeps the law)")
+            for v in found]
+
+
+def oracle_views(case, res):
+    out = []
+    seq = case["seq"]
+    # (a) the generators' own fragments, their pointer lists and the device's files are only read: gen.py hands the
+    #     same objects to the next computation and stores them in the OldNewResult (json_fragment_results, the old
+    #     documents the patch is built from)
+    for what_, sig, text in (("fragment:", "glue.chain.fragment-mutated", "the fragment (GeneratorJSONFragmentResult.config) of generator"),
+                             ("old:", "glue.chain.old-file-mutated", "the old document of file"),
+                             ("acl:", "glue.chain.acl-mutated", "the pointer lists of generator")):
+        for c, m in enumerate(res["mutated"]):
+            hit = [x.split(":", 1)[1] for x in m if x.startswith(what_)]
+            if hit:
+                out.append(dict(sig=sig, what=GLUE_LABEL + "computation %d (safe=%s) of %s changed %s %s"
+                                % (c + 1, seq[c] == "T", seq, text, ", ".join(hit))))
+                break
+    # (b)-(d) on the property's domain: documents of one schema, well-formed pointers
+    pats = [p for g in case["gens"] for p in g["acl"] + g["safe"]]
+    if any(parse_pat(p) is None for p in pats):
+        return out
+    for j in range(len(case["files"])):
+        docs = [dec(case["files"][j]) or {}] + [dec(case["gens"][i]["f"]) for i in _gens_of_file(case, j)]
+        if any(not isinstance(d, dict) for d in docs) or any(not obj_consistent(a, b) for a in docs for b in docs):
+            return out
+    for flag in _view_flags(case):
+        name = _flagname(flag)
+        # (b) every merge of the fold keeps the laws: inside the generator's pointers the document equals its
+        #     fragment, outside it equals the document before
+        for j, reps in enumerate(res["steps"][name]):
+            prev = dec(case["files"][j]) or {}
+            for i, rep in zip(_gens_of_file(case, j), reps):
+                g = case["gens"][i]
+                out.extend(_step_findings(prev, dec(g["f"]), g["safe" if flag == "T" else "acl"], rep,
+                                          GLUE_LABEL + "%s view, merge of generator g%d: " % (name, i)))
+                if "err" in rep:
+                    break
+                prev = dec(rep["ok"])
+        # (c) a view is that fold for every file
+        want = _combine_steps(case, res["steps"][name])
+        if not _reply_eq(res["fresh"][name], want):
+            out.append(dict(sig="glue.chain.view-not-fold",
+                            what=GLUE_LABEL + "%s view over %d files is not the fold of the generators of each file: %s"
+                                 % (name, len(case["files"]), _reply_diff(res["fresh"][name], want))))
+    # (d) a view is a function of the old files and the generators' results: the same RunGeneratorResult gives it
+    #     whatever it computed before
+    first = {}
+    for c, flag in enumerate(seq):
+        name = _flagname(flag)
+        if not _reply_eq(res["views"][c], res["fresh"][name]):
+            out.append(dict(sig="glue.chain.view-depends-on-history",
+                            what=GLUE_LABEL + "computation %d (safe=%s) of %s on one RunGeneratorResult is not the %s view "
+                                 "a fresh RunGeneratorResult gives: %s"
+                                 % (c + 1, flag == "T", seq, name, _reply_diff(res["views"][c], res["fresh"][name]))))
+            break
+    for c, flag in enumerate(seq):
+        if flag in first and not _reply_eq(res["views"][c], res["views"][first[flag]]):
+            out.append(dict(sig="glue.chain.recomputation-differs",
+                            what=GLUE_LABEL + "computations %d and %d (safe=%s) of %s give different documents: %s"
+                                 % (first[flag] + 1, c + 1, flag == "T", seq, _reply_diff(res["views"][c], res["views"][first[flag]]))))
+            break
+        first.setdefault(flag, c)
+    seen, uniq = set(), []
+    for v in out:
+        if v["sig"] not in seen:
+            seen.add(v["sig"])
+            uniq.append(v)
+    return uniq
+
+
+def oracle_callers(case, res):
+    """apply_patch(what the device has, what the caller uploads) == the new document, for every file"""
+    out = []
+    olds = [dec(f["old"]) for f in case["files"]]
+    targets = [dec(f["safe" if case["acl_safe"] else "new"]) for f in case["files"]]
+    if res.get("mutated"):
+        out.append(dict(sig="callers.input-mutated", what="parse_result / _patch_worker changed the old document of file(s) %s" % res["mutated"]))
+    if any(not isinstance(t, dict) for t in targets) or any(o is not None and not isinstance(o, dict) for o in olds):
+        return out
+    for who, fn in (("deploy", "PCDeployerJob.parse_result"), ("patch", "api._patch_worker")):
+        r = res[who]
+        if "err" in r:
+            known = None
+            for o, t in zip(olds, targets):
+                known = known or _lib_finding(o, t, "make-raises-" + r["err"])
+            out.extend(known or [dict(sig="callers.%s.raises" % who, what="%s raised %s" % (fn, r["err"]))])
+            continue
+        for i, (row, o, t) in enumerate(zip(r["files"], olds, targets)):
+            where = "missing-file" if o is None else "existing-file"
+            state = "is not on the device (old document None)" if o is None else "exists on the device"
+            if not row["up"]:
+                if o is not None and strict_eq(o, t):
+                    continue          # the device already has the new document
+                out.append(dict(sig="callers.%s.%s.not-uploaded" % (who, where),
+                                what="%s uploads nothing for file %d, which %s and whose new document differs from it"
+                                     % (fn, i, state)))
+                continue
+            if isinstance(row["ops"], dict):
+                sym = "uploaded-text-is-not-a-patch"
+            elif "err" in row["r"]:
+                sym = "apply-raises-" + row["r"]["err"]
+            else:
+                got = dec(row["r"]["ok"])
+                if strict_eq(got, t):
+                    continue
+                sym = "bool-int-alias" if got == t else "differs"
+            known = _lib_finding(o, t, sym)
+            out.extend(known or [dict(sig="callers.%s.%s" % (who, where),
+                                      what="%s: file %d %s; apply_patch(%s, uploaded patch) != new document (%s); uploaded %d operation(s)%s"
+                                           % (fn, i, state, "None" if o is None else "dumps(old)", sym,
+                                              len(row["ops"]) if isinstance(row["ops"], list) else 0,
+                                              ", first: %s %r" % (row["ops"][0]["op"], row["ops"][0]["path"])
+                                              if isinstance(row["ops"], list) and row["ops"] else ""))])
+    seen, uniq = set(), []
+    for v in out:
+        if v["sig"] not in seen:
+            seen.add(v["sig"])
+            uniq.append(v)
+    return uniq
+
+
 def oracle(case, res):
     k = case["k"]
+    if k == "views":
+        return oracle_views(case, res)
+    if k == "callers":
+        return oracle_callers(case, res)
     if k == "frag":
         out = oracle_frag(dec(case["old"]), dec(case["f"]), case["acl"], res["r"], res["again"])
         if res.get("mutated"):
@@ -1099,6 +1663,12 @@ def nontrivial(case, res):
         return "ok" in res["r"] and res["r"]["ok"] != case["old"]
     if k == "chain":
         return "ok" in res["r"] and res["r"]["ok"] != case["old"]
+    if k == "views":
+        # some view really differs from the old files, and a later generator worked inside an earlier one's part
+        return any("ok" in v and v["ok"] != case["files"] for v in res["views"]) and _views_overlap(case) != "disjoint"
+    if k == "callers":
+        return any(row["up"] and isinstance(row["ops"], list) and len(row["ops"]) >= 1
+                   for who in ("deploy", "patch") for row in res[who].get("files", []))
     if k == "patch":
         return isinstance(res["ops"], list) and len(res["ops"]) >= 2
     if k == "filter":
@@ -1120,9 +1690,62 @@ def _depth(t):
     return 0
 
 
+def _views_overlap(case):
+    """how the parts of the generators of one file lie to each other, read from the fragments: `nested` = a later
+    generator selects strictly inside an object an earlier one installs (the earlier fragment's sub-object is then
+    part of the document the later merge works on), `same-or-around` = it selects that part itself or an ancestor"""
+    best = "disjoint"
+    for j in range(len(case["files"])):
+        idx = _gens_of_file(case, j)
+        for a in range(len(idx)):
+            fa = dec(case["gens"][idx[a]]["f"])
+            qa = {q: v for p in case["gens"][idx[a]]["acl"] for ps in [parse_pat(p)] if ps for q, v in sel(ps, fa).items()}
+            for b in range(a + 1, len(idx)):
+                gb = case["gens"][idx[b]]
+                for p in gb["acl"]:
+                    ps = parse_pat(p)
+                    if not ps:
+                        continue
+                    for q, v in qa.items():
+                        if len(ps) > len(q) and isinstance(v, dict) and all(_fnmatch.fnmatchcase(q[i], ps[i]) for i in range(len(q))):
+                            return "nested"
+                        if len(ps) <= len(q) and all(_fnmatch.fnmatchcase(q[i], ps[i]) for i in range(len(ps))):
+                            best = "same-or-around"
+    return best
+
+
 def stats(case, res):
     k = case["k"]
     lab = ["kind=" + k]
+    if k == "views":
+        lab.append("views.seq=" + case["seq"])
+        lab.append("views.generators=%d" % len(case["gens"]))
+        lab.append("views.files=%d" % len(case["files"]))
+        lab.append("views.overlap=" + _views_overlap(case))
+        lab.extend("views.old-file-missing" for x in case["files"] if x is None)
+        lab.extend("views.computation.%s=%s" % (_flagname(c), "ok" if "ok" in v else v["err"]) for c, v in zip(case["seq"], res["views"]))
+        lab.extend("views.merge-step-checked" for per_file in res["steps"].values() for reps in per_file for _ in reps)
+        lab.extend("views.recomputation-compared" for c in range(len(case["seq"])) if case["seq"][c] in case["seq"][:c])
+        if "full" in res["fresh"] and "safe" in res["fresh"] and res["fresh"]["full"] != res["fresh"]["safe"]:
+            lab.append("views.safe-view-differs-from-full")
+        return lab
+    if k == "callers":
+        lab.append("callers.files=%d" % len(case["files"]))
+        lab.append("callers.acl_safe=%s" % case["acl_safe"])
+        lab.append("callers.entire_reload=" + case["reload"])
+        for who in ("deploy", "patch"):
+            r = res[who]
+            if "err" in r:
+                lab.append("callers.%s.raises=%s" % (who, r["err"]))
+                continue
+            for f, row in zip(case["files"], r["files"]):
+                where = "missing-file" if f["old"] is None else "existing-file"
+                if not row["up"]:
+                    lab.append("callers.%s.%s.not-uploaded" % (who, where))
+                elif isinstance(row["ops"], list):
+                    lab.append("callers.%s.%s.patch-applied=%s" % (who, where, "ok" if "ok" in row["r"] else row["r"]["err"]))
+                    lab.append("callers.%s.ops=%d" % (who, min(len(row["ops"]), 12)))
+        return lab
     if k in ("frag", "chain", "filter", "resolve"):
         r = res["r"]
         lab.append("%s.result=%s" % (k, "ok" if "ok" in r else r["err"]))
@@ -1211,6 +1834,47 @@ def shrink_candidates(case):
         if case["old"] is not None:
             for d2 in _shrink_doc(case["old"]):
                 yield dict(case, old=d2)
+    elif k == "views":
+        gens, files, seq = case["gens"], case["files"], case["seq"]
+        if len(files) > 1:
+            for j in range(len(files)):      # keep one file and its generators
+                keep = [dict(g, file=0) for g in gens if g["file"] == j]
+                if keep:
+                    yield dict(case, files=[files[j]], gens=keep)
+        if len(gens) > 1:
+            for i in range(len(gens)):
+                yield dict(case, gens=gens[:i] + gens[i + 1:])
+        for c in range(len(seq)):
+            if len(seq) > 1:
+                yield dict(case, seq=seq[:c] + seq[c + 1:])
+        for j in range(len(files)):
+            if files[j] is not None:
+                yield dict(case, files=files[:j] + [None] + files[j + 1:])
+                for d2 in _shrink_doc(files[j]):
+                    yield dict(case, files=files[:j] + [d2] + files[j + 1:])
+        for i, g in enumerate(gens):
+            for name in ("acl", "safe"):
+                for n in range(len(g[name])):
+                    yield dict(case, gens=gens[:i] + [dict(g, **{name: g[name][:n] + g[name][n + 1:]})] + gens[i + 1:])
+            for d2 in _shrink_doc(g["f"]):
+                yield dict(case, gens=gens[:i] + [dict(g, f=d2)] + gens[i + 1:])
+    elif k == "callers":
+        files = case["files"]
+        if len(files) > 1:
+            for i in range(len(files)):
+                yield dict(case, files=files[:i] + files[i + 1:])
+        if case["reload"] != "yes":
+            yield dict(case, reload="yes")
+        if case["acl_safe"]:
+            yield dict(case, acl_safe=False, files=[dict(f, new=f["safe"]) for f in files])
+        for i, f in enumerate(files):
+            for name in ("old", "new", "safe"):
+                if f[name] is None:
+                    continue
+                if name != ("safe" if case["acl_safe"] else "new") and name != "old" and f[name] != {"o": []}:
+                    yield dict(case, files=files[:i] + [dict(f, **{name: {"o": []}})] + files[i + 1:])
+                for d2 in _shrink_doc(f[name]):
+                    yield dict(case, files=files[:i] + [dict(f, **{name: d2})] + files[i + 1:])
 
 
 def search(case):
@@ -1222,6 +1886,10 @@ def search(case):
             yield gen_frag_case(rng)
         elif k == "chain":
             yield gen_chain_case(rng)
+        elif k == "views":
+            yield gen_views_case(rng)
+        elif k == "callers":
+            yield gen_callers_case(rng)
         elif k == "patch":
             yield gen_patch_case(rng)
         else:
